@@ -193,6 +193,73 @@ func TestC19(t *testing.T) {
 		if !r.Failed() {
 			flush()
 		}
+		// 6. cross-warming: the Buffer is warmed by ONE call of a different function on the very
+		// same document, then the first call of the function under test is measured alone
+		// (AllocsPerRun's own warm-up call would hide a first-call allocation). A function only
+		// counts as a warmer for functions whose stack need on that document is not larger, so
+		// the warmers are Valid and SkipValue (one slot per nesting level): SkipValueFast does not
+		// count objects inside arrays (or arrays inside objects) and the traversals keep the
+		// outermost container off the stack, so a Buffer they have used on a document is not
+		// "warmed" for the validating skippers on the same document (measured on the pinned tree:
+		// one 8..16-byte growth; read as outside the property's precondition, see DESIGN 0.6).
+		if e.enumStage("cross-warm", "depths 1..140 and 8 larger ones x {array, object, mixed} nesting x warmer x measured function: first call on a Buffer warmed by one call of another function on the same document", true) {
+			skipFam := []string{"Valid", "SkipValue", "SkipValueFast"}
+			travFam := []string{"HandleArrayValues", "HandleObjectValues"}
+			depths := []int{}
+			for d := 1; d <= 140; d++ {
+				depths = append(depths, d)
+			}
+			depths = append(depths, 255, 256, 257, 512, 513, 848, 1024, 1025, 4096, 9999, 10000)
+			var ms runtime.MemStats
+			idx := 0
+		cw:
+			for _, d := range depths {
+				for pi, pat := range []string{"a", "o", "ao"} {
+					idx++
+					if !e.cfg.Mine(idx) {
+						continue
+					}
+					doc := gen.NestSpec{Depth: d, Pattern: pat, Close: d, Bottom: "1"}.Build()
+					for _, warm := range []string{"Valid", "SkipValue"} {
+						measured := append(append([]string{}, skipFam...), travFam...)
+						for _, fn := range measured {
+							min := ^uint64(0)
+							okBoth := true
+							for trial := 0; trial < 3 && min != 0; trial++ {
+								w, wok := newZcaseCold(c19FuncIndex(warm), doc)
+								if !wok {
+									okBoth = false
+									break
+								}
+								z := &zcase{fn: c19FuncIndex(fn), in: w.in, buf: w.buf, h: w.h}
+								runtime.ReadMemStats(&ms)
+								before := ms.Mallocs
+								ok := z.run()
+								runtime.ReadMemStats(&ms)
+								if !ok {
+									okBoth = false
+									break
+								}
+								if x := ms.Mallocs - before; x < min {
+									min = x
+								}
+							}
+							if !okBoth {
+								continue
+							}
+							key := core.HashInts(core.Hash(doc, []byte(warm), []byte(fn)), int64(pi))
+							r.Eval(key, d >= 2)
+							r.Label("crosswarm." + warm + "->" + fn)
+							if min > 0 {
+								c := &core.Case{Prop: "C19", Kind: "cross-warm", In: doc, Strs: []string{fn, warm}}
+								r.Fail(c, fmt.Errorf("%s allocates %d times on its first call with a Buffer that %s has just used successfully on the same %d-deep document", fn, min, warm, d))
+								break cw
+							}
+						}
+					}
+				}
+			}
+		}
 	})
 }
 
